@@ -237,6 +237,36 @@ def run_store_cell(rng, cell):
     return ev, desc + " -> " + _short(res)
 
 
+def run_arr_cell(rng, cell):
+    """array cell = {c, dt, items: [{vc, v}, ...]} (CimTypesInt.ArrShapes);
+    every item is concretised from its own value class; returns (vector for
+    TLC (ArrFails), description)"""
+    c, dt, items = cell["c"], cell["dt"], cell["items"]
+    ev = dict(k="arr", c=c, dt=dt, items=items, out="stored", islist=False,
+              sts=[], hasvs=[], svs=[])
+    desc = "%s([%s]) type=%s" % (c, ", ".join(
+        "<%s %d>" % (it["vc"], concrete_int(it["v"])) for it in items), dt)
+    try:
+        val = []
+        for it in items:
+            args, kwargs = offered(rng, it["vc"], concrete_int(it["v"]), dt)
+            val.append(args[0])
+        desc = "%s(%s) type=%s array" % (c, _short(val), dt)
+        res = _container_call(c, dt, val, (val,), {}, True)
+    except Exception as exc:  # noqa: every exception class is an observation
+        ev["out"] = type(exc).__name__
+        if ev["out"] == "stored":
+            ev["out"] = "stored-exception"
+        return ev, desc + " -> " + _short(exc)
+    ev["islist"] = isinstance(res, list)
+    for x in (res if isinstance(res, list) else [res]):
+        ev["sts"].append(type(x).__name__)
+        isint = isinstance(x, int)
+        ev["hasvs"].append(isint)
+        ev["svs"].append(abstract_int(int(x)) if isint else {"a": "Z", "d": 0})
+    return ev, desc + " -> " + _short(res)
+
+
 def _short(x):
     r = repr(x)
     return r if len(r) <= 70 else r[:67] + "..."
